@@ -135,8 +135,6 @@ def real_oracles(threads, r):
             if woken.get(a, 0) != notified.get(a, 0):
                 bad.append(("futex-woken-ne-notified",
                             f"address {a}: notify calls returned {notified.get(a, 0)} in total, {woken.get(a, 0)} waits returned 0"))
-        if r.get("map") == "nonempty":
-            bad.append(("futex-map-not-empty", "all threads finished but the address map still holds a node"))
     if v == "deadlock":
         # every waiter a completed notify counted must eventually return 0; here nothing can move any more
         for a in set(notified):
@@ -188,10 +186,10 @@ def run(tier):
     if not ok:
         broken.append({"kind": "futexdriver-build", "msg": out[-2000:], "decls": vlib.failed_decls(out)})
     quick = tier == "quick"
-    n_scen = 200 if quick else 1500
+    n_scen = 200 if quick else 900
     n_seeds = 16 if quick else 30
-    n_dfs = 6 if quick else 60
-    dfs_runs = 300 if quick else 6000
+    n_dfs = 6 if quick else 30
+    dfs_runs = 300 if quick else 2500
     hist = {"verdict": {}, "ops": {}, "steps": {}, "spurious": 0, "timeouts": 0, "collide": 0, "threads": {}}
     with vlib.scratch("c17-") as d:
         repo = vlib.copy_repo(os.path.join(d, "repo"))
